@@ -18,7 +18,6 @@
   for WIDTH/HEIGHT above `i32::MAX` (no such framebuffer fits in memory at >= 1 bit per pixel times
   2^31 columns only if HEIGHT is tiny — outside every display scale); the model compares in `Int`.
 
-  -- [V] drawing `as_image()` reproduces the framebuffer's content: the image is proved to be the ImageRaw over the same bytes (`as_image_spec`) and `pixel` IS the image's `pixel`; the draw path of ImageRaw (`ContiguousPixels`, `fill_contiguous`) is C09's model — here carried by correspondence (`img=` field of fb.hist) + oracle only
   -- [V] the colour <-> raw conversions `C::into()` / `C::from(raw)` are the identity on raw values (C12's topic): carried by correspondence + oracle only
 -/
 import EG.Lemmas.FramebufferHist
